@@ -62,6 +62,28 @@ class NotEncodable(Exception):
     """the value is outside the published format's domain"""
 
 
+class FSet(tuple):
+    """a frozenset together with the order its members have on the wire (`decode(.., keep_order=True)`);
+    `encode` writes the members in that order"""
+
+    def plain(self):
+        return frozenset(plain(x) for x in self)
+
+
+def plain(v):
+    """the Python value without wire-order information"""
+    t = type(v)
+    if t is FSet:
+        return v.plain()
+    if t is tuple:
+        return tuple(plain(x) for x in v)
+    if t is frozenset:
+        return frozenset(plain(x) for x in v)
+    if t is slice:
+        return slice(plain(v.start), plain(v.stop), plain(v.step))
+    return v
+
+
 # ------------------------------------------------------------------------------------------ encoding
 def _length_field(statement, n):
     if statement == "L1":
@@ -144,7 +166,7 @@ def _enc(v, choose, out):
         _header("tuple", TUPLE_FORMS, len(v), choose, out)
         for item in v:
             _enc(item, choose, out)
-    elif t is frozenset:
+    elif t is frozenset or t is FSet:
         out.append(TAGS["FSET"])
         _enc(tuple(v), choose, out)
     elif t is slice:
@@ -156,7 +178,7 @@ def _enc(v, choose, out):
 
 def encodable(v):
     t = type(v)
-    if t in (tuple, frozenset):
+    if t in (tuple, frozenset, FSet):
         return all(encodable(x) for x in v)
     if t is slice:
         return encodable(v.start) and encodable(v.stop) and encodable(v.step)
@@ -173,9 +195,10 @@ _INT_BY_TAG = dict((TAGS[name], st) for name, st in INT_FORMS)
 
 
 class _Reader:
-    def __init__(self, data):
+    def __init__(self, data, keep_order=False):
         self.data = data
         self.pos = 0
+        self.keep_order = keep_order
 
     def take(self, n):
         if self.pos + n > len(self.data):
@@ -192,9 +215,10 @@ class _Reader:
         return statement
 
 
-def decode(data):
-    """the value `data` denotes; FormatError unless `data` is exactly one well-formed value"""
-    r = _Reader(bytes(data))
+def decode(data, keep_order=False):
+    """the value `data` denotes; FormatError unless `data` is exactly one well-formed value.
+    keep_order: frozensets come back as `FSet` (members in wire order) so that `encode` reproduces the bytes"""
+    r = _Reader(bytes(data), keep_order)
     v = _dec(r, 0)
     if r.pos != len(r.data):
         raise FormatError("%d trailing bytes after the value" % (len(r.data) - r.pos))
@@ -249,7 +273,7 @@ def _dec(r, depth):
         items = _dec(r, depth + 1)
         if type(items) is not tuple:
             raise FormatError("TAG_FSET must be followed by a tuple")
-        return frozenset(items)
+        return FSet(items) if r.keep_order else frozenset(items)
     if name == "SLICE":
         items = _dec(r, depth + 1)
         if type(items) is not tuple or len(items) != 3:
